@@ -97,4 +97,83 @@ theorem driver_cfg_is_default : fastaCfg = ({} : Biogo.Fasta.Cfg) := by
   have h := Biogo.Properties.C01.source_constants
   rw [h.1, h.2.1]
 
+/-! ### writers over a failing `io.Writer` (ops `fax`, `fqx`; fourth wave) -/
+
+/-- **the demand at one failure point, declaratively**: no violation iff the token is
+    `<counts>/<emitted>/<e>/1` with the two renderings equal — every `Write` of the run, the failed
+    one included, returned exactly the bytes it emitted ("The byte count returned by each write
+    equals the number of bytes actually emitted"), and the bytes emitted are the first bytes of the
+    fault-free text.  Whether and where an error was reported (`e`) is not demanded. -/
+theorem faultDemand_none_iff (k : Nat) (tok : String) :
+    faultDemand k tok = none ↔ ∃ ns e, tok.splitOn "/" = [ns, ns, e, "1"] := by
+  unfold faultDemand
+  split
+  · next ns ds e p h =>
+    by_cases h1 : ns = ds
+    · by_cases h2 : p = "1"
+      · subst h1 h2; simp only [ne_eq, not_true_eq_false, if_false, true_iff]; exact ⟨ns, e, h⟩
+      · simp only [h1, ne_eq, not_true_eq_false, if_false, h2, not_false_eq_true, if_true, reduceCtorEq, false_iff, not_exists]
+        intro a b h3; rw [h] at h3; simp at h3; exact h2 h3.2.2.2
+    · simp only [ne_eq, h1, not_false_eq_true, if_true, reduceCtorEq, false_iff, not_exists]
+      intro a b h3; rw [h] at h3; simp at h3; exact h1 (h3.1.trans h3.2.1.symm)
+  · next h =>
+    simp only [reduceCtorEq, false_iff, not_exists]
+    intro ns e h'
+    exact h ns ns e "1" h'
+
+/-- … and the demand on the whole observation is that demand at every failure point -/
+theorem faultDemands_none_iff (toks : List String) : ∀ k,
+    faultDemands k toks = none ↔ ∀ j (h : j < toks.length), faultDemand (k + j) toks[j] = none := by
+  induction toks with
+  | nil => intro k; simp [faultDemands]
+  | cons t ts ih =>
+    intro k
+    unfold faultDemands
+    cases hd : faultDemand k t with
+    | some why =>
+      simp only [reduceCtorEq, false_iff]
+      intro h
+      have := h 0 (by simp)
+      simp [hd] at this
+    | none =>
+      simp only
+      rw [ih (k + 1)]
+      constructor
+      · intro h j hj
+        cases j with
+        | zero => simpa using hd
+        | succ j =>
+          have := h j (by simpa using hj)
+          simpa [Nat.add_assoc, Nat.add_comm 1 j] using this
+      · intro h j hj
+        have := h (j + 1) (by simpa using hj)
+        simpa [Nat.add_assoc, Nat.add_comm 1 j] using this
+
+/-- **the failing sink of the model** (`faultRun`, what the driver compares the implementation with):
+    a writer that accepts `k` bytes, fed records whose fault-free texts have the lengths `lens`
+    starting at offset `s ≤ k`, has emitted exactly the first `min k (s + Σ lens)` bytes when the run
+    stops, the counts it returned add up to what was emitted, and no `Write` failed iff everything
+    fitted. -/
+theorem faultRun_total (k : Nat) (lens : List Nat) : ∀ (i s : Nat), s ≤ k →
+    s + (faultRun k i s lens).1.sum = min k (s + lens.sum) ∧
+    ((faultRun k i s lens).2 = none ↔ s + lens.sum ≤ k) := by
+  induction lens with
+  | nil => intro i s h; simp [faultRun]; omega
+  | cons len rest ih =>
+    intro i s h
+    unfold faultRun
+    by_cases hf : s + len ≤ k
+    · have := ih (i + 1) (s + len) hf
+      simp only [hf, if_true, List.sum_cons]
+      constructor
+      · omega
+      · rw [this.2]; omega
+    · simp only [hf, if_false, List.sum_cons, List.sum_nil]
+      constructor
+      · omega
+      · simp; omega
+
+
+example : faultRun 4 0 0 [3, 2, 5] = ([3, 1], some 1) := by decide
+
 end Biogo.Properties.C01_checker
